@@ -182,6 +182,40 @@ def generate(prop: str, root: str, seed: int = 0, cap: int = 160) -> list[dict]:
                     k += 1
                     V(f'{hn}-flag-resolution{k}-dropped', [_splice(F, n, 'pass')], 'C06.R1', hn)
 
+        # documented stack effect / operands: per handler, one stack pop too many; one stack pop dropped; one extra
+        # operand byte read; the first counted loop runs once more
+        hs = [n for n, fn in fns.items() if (n.startswith('OP_') or n == 'NOP') and fn.body]
+        random.Random(seed + 1).shuffle(hs)
+        for hn in sorted(hs[:36]):
+            fn = fns[hn]
+            if len(fn.args.args) < 3:
+                continue
+            tp, sp = fn.args.args[0].arg, fn.args.args[1].arg
+            first = fn.body[1] if (isinstance(fn.body[0], ast.Expr) and isinstance(fn.body[0].value, ast.Constant)
+                                   and len(fn.body) > 1) else fn.body[0]
+            src = _src(root, F)
+            seg = ast.get_source_segment(src, first)
+            ind = ' ' * first.col_offset
+            gets = [n for n in ast.walk(fn) if isinstance(n, ast.Expr) is False and isinstance(n, ast.Call)
+                    and isinstance(n.func, ast.Attribute) and n.func.attr == 'get' and isinstance(n.func.value, ast.Name)
+                    and n.func.value.id == sp]
+            runs_sub = any(isinstance(n, ast.Call) and isinstance(n.func, ast.Name) and n.func.id in ('run_tape',)
+                           for n in ast.walk(fn))
+            from .spec_effects import SPEC, DATA
+            spec = SPEC.get(hn)
+            if spec is None:
+                continue
+            if spec.net != DATA:
+                V(f'{hn}-extra-pop', [_splice(F, first, f'{sp}.get()\n{ind}{seg}')], 'C06.R4', hn)
+            V(f'{hn}-extra-operand-byte', [_splice(F, first, f'{tp}.read(1)\n{ind}{seg}')], 'C06.R5', hn)
+            loops = [n for n in ast.walk(fn) if isinstance(n, ast.For) and isinstance(n.iter, ast.Call)
+                     and isinstance(n.iter.func, ast.Name) and n.iter.func.id == 'range' and len(n.iter.args) == 1
+                     and any(isinstance(x, ast.Call) and isinstance(x.func, ast.Attribute) and x.func.attr in ('get', 'put')
+                             and isinstance(x.func.value, ast.Name) and x.func.value.id == sp for x in ast.walk(n))]
+            if loops and spec.net != DATA:
+                a0 = loops[0].iter.args[0]
+                V(f'{hn}-loop-once-more', [_splice(F, a0, f'({ast.get_source_segment(src, a0)}) + 1')], 'C06.R4', hn)
+
     # 7. one limit guard disappears -----------------------------------------------------------------------------
     if prop == 'C07':
         def guards_in(tree, rel, cls, meth, tag, rule):
